@@ -31,7 +31,7 @@ def guiOp (toks : List String) : String :=
     let bitmaps : List Pdu := (plens.zipIdx.foldl (fun (acc : List Pdu × Nat) (li : Nat × Nat) =>
       if quiet.contains li.2 then (acc.1 ++ [⟨.quiet, li.1⟩], acc.2) else (acc.1 ++ [⟨.bitmap acc.2, li.1⟩], acc.2 + 1)) ([], 0)).1
     let endPdu : Option Pdu :=
-      if endm = "dpu" then some ⟨.ultimatum, 9⟩ else if endm = "bad" then some ⟨.badRdp, 10⟩
+      if endm = "dpu" ∨ endm = "dpuhold" then some ⟨.ultimatum, 9⟩ else if endm = "bad" then some ⟨.badRdp, 10⟩
       else if endm = "badio" then some ⟨.badIo, 9⟩ else none
     let packed := endpack = "1" ∧ endPdu.isSome
     -- `act≠0`: the thread itself runs the activation; its five server PDUs (`alens`), each in a record
